@@ -384,23 +384,31 @@ structure CsvLine where
   idx : Nat := 0
   deriving Repr, DecidableEq
 
+/-- the conversion of one cell (with the blank-cell guard of the repaired source): value and `endptr` -/
+def csvCellConv (fx : Fixes) (conv : Conv) (mem : Bytes) (lend p : Nat) : Res (Nat × Nat) := do
+  let blank ← if fx.csvBlankGuard then (do let q ← scan isCellSpaceB mem lend p; pure (q == lend)) else pure false
+  if blank then pure (0, p) else conv.cell mem p
+
+/-- routing of one cell value: label column, weight column, or entry (`present` = the conversion consumed
+something); then `++column_index` -/
+def csvUpdate (prm : CsvParam) (st : CsvLine) (v : Nat) (present : Bool) : CsvLine :=
+  let st :=
+    if Gen.Parse.csvIsLabel (u32 st.col) prm.labelCol then { st with label := some v }
+    else if Gen.Parse.csvIsWeight prm.isReal (u32 st.col) prm.weightCol then { st with weight := v }
+    else if present then { st with feats := (st.idx, v) :: st.feats, idx := st.idx + 1 }
+    else { st with idx := st.idx + 1 }
+  { st with col := st.col + 1 }
+
 /-- the cell loop `while (p != lend) { … }` -/
 def csvCells (fx : Fixes) (conv : Conv) (prm : CsvParam) (mem : Bytes) (lend : Nat) : Nat → Nat → CsvLine → Res CsvLine
   | 0, _, _ => .error .oob
   | fuel + 1, p, st =>
     if p = lend then .ok st else do
-    let blank ← if fx.csvBlankGuard then (do let q ← scan isCellSpaceB mem lend p; pure (q == lend)) else pure false
-    let (v, endptr) ← if blank then pure (0, p) else conv.cell mem p
-    let st :=
-      if Gen.Parse.csvIsLabel (u32 st.col) prm.labelCol then { st with label := some v }
-      else if Gen.Parse.csvIsWeight prm.isReal (u32 st.col) prm.weightCol then { st with weight := v }
-      else if Gen.Parse.csvCellPresent p endptr then { st with feats := (st.idx, v) :: st.feats, idx := st.idx + 1 }
-      else { st with idx := st.idx + 1 }
-    let p := Gen.Parse.csvClamp endptr lend
-    let st := { st with col := st.col + 1 }
-    let p ← scanRd (fun b => Gen.Parse.csvNotDelim b.toNat prm.delim) mem lend p
-    if Gen.Parse.csvNoDelimiter p lend st.idx then .error .check else
-    csvCells fx conv prm mem lend fuel (if p != lend then p + 1 else p) st
+    let ve ← csvCellConv fx conv mem lend p
+    let st := csvUpdate prm st ve.1 (Gen.Parse.csvCellPresent p ve.2)
+    let q ← scanRd (fun b => Gen.Parse.csvNotDelim b.toNat prm.delim) mem lend (Gen.Parse.csvClamp ve.2 lend)
+    if Gen.Parse.csvNoDelimiter q lend st.idx then .error .check else
+    csvCells fx conv prm mem lend fuel (if q != lend then q + 1 else q) st
 
 /-- `out->label.push_back(v)` happens inside the cell loop; a line may push several labels only if
 `label_column` repeats, which it cannot: at most one per line -/
